@@ -1,7 +1,7 @@
 """C12: curve-group components compute the JubJub group law."""
 import json
 from ..common import *
-from .. import proofgate, composer, widgets
+from .. import proofgate, composer, widgets, rootfind
 from .. import jubjub as J
 
 THEOREMS = ["C12_law_complete", "C12_law_closed", "C12_law_inverse", "C12_add_emits", "C12_add_rows_iff", "C12_add_unique",
@@ -23,6 +23,33 @@ def scalars(rng, quick):
     s = [0, 1, 2, J.RJ - 1, J.RJ, (1 << 252) - 1, 1 << 251, rng.randrange(J.RJ)]
     if not quick: s += [rng.randrange(1 << 252) for _ in range(6)] + [8, J.RJ + 1, (1 << 252) - J.RJ]
     return s
+
+def ghost_operand_assignments(snap, first_new):
+    """curve-addition blocks whose FIRST operand (x1, y1) and helper wire are gadget-allocated witnesses used nowhere
+    else: the two output equations are then a quadratic in s = x1*y1 and have a second solution (a 'ghost' operand).
+    Never applies to the layouts of the unchanged code (operands are inputs or are pinned by other rows)."""
+    g = snap.gates; use = {}
+    for i, (sel, wires) in enumerate(g):
+        for w in set(wires): use.setdefault(w, set()).add(i)
+    out = []
+    for i, (sel, wires) in enumerate(g):
+        if not sel[10] or i + 1 >= len(g): continue
+        x1, y1, x2, y2 = wires; x3, y3, _, t = g[i + 1][1]
+        if min(x1, y1, t) < first_new or x1 == y1: continue
+        if not (use[x1] <= {i} and use[y1] <= {i} and use[t] <= {i + 1}): continue
+        X2, Y2, X3, Y3 = (snap.wits[k] for k in (x2, y2, x3, y3))
+        det = (Y2 * Y2 - X2 * X2) % R
+        if det == 0: continue
+        T = rootfind.T; k = D_ED * X2 % R * Y2 % R
+        r1 = X3 * (1 + k * T); r2 = Y3 * (1 - k * T)          # x1 y2 + y1 x2 = r1 ; x1 x2 + y1 y2 = r2
+        di = pow(det, R - 2, R)
+        xs = (r1 * Y2 - r2 * X2) * di; ys = (r2 * Y2 - r1 * X2) * di
+        for s_ in rootfind.roots((xs * ys - T).c):
+            gx, gy = rootfind.peval(xs.c, s_), rootfind.peval(ys.c, s_)
+            if (gx, gy) == (snap.wits[x1], snap.wits[y1]): continue
+            w2 = list(snap.wits); w2[x1], w2[y1], w2[t] = gx, gy, gx * Y2 % R
+            out.append((i, (x1, y1), w2))
+    return out
 
 def run(ck):
     quick = ck.tier == "quick"
@@ -70,6 +97,9 @@ def run(ck):
             if got != want:
                 ck.violation(f"component_{kind}_point({m[1]}) returned {got[0]:#x},.. instead of the group result", {"failing_input_found": True, "program": progs[name]}, key=f"value:{kind}:{m[1]}")
             job(name, snap, None, True, f"honest {kind}", name)
+            for (row, ops, w2) in ghost_operand_assignments(snap, FIRST + 4):
+                nm = f"{name}_ghost{row}"
+                job(nm, snap, w2, False, f"{kind}: gadget-allocated free operand replaced by the second root (ghost point)", name)
             if kind == "add":
                 n0 = res[-2] - 1          # x1*y2 wire, then x3, y3
                 # each helper / output wire moved alone
@@ -139,7 +169,7 @@ def run(ck):
             ck.violation(f"{tag}: rows of the real layout satisfiable={got}, property requires {expect[nm]} ({meta[prog][:2]})",
                          {"failing_input_found": True, "program": progs[prog], "template": tag}, key=f"{tag}")
     for nm, over in composer.second_opinion(ck, jobs, expect, progs, lambda n: info[n][1], "c12_rp",
-                                            lambda n: n.endswith(("_solved", "_other", "_p0", "_bit")) or (n.startswith("selid") and expect.get(n) is False), limit=8 if quick else 40):
+                                            lambda n: n.endswith(("_solved", "_other", "_p0", "_bit")) or "_ghost" in n or (n.startswith("selid") and expect.get(n) is False), limit=8 if quick else 40):
         tag, prog = info[nm]
         ck.violation(f"{tag}: the REAL prover produced a proof for this assignment and the verifier accepted it ({meta[prog][:2]})",
                      {"failing_input_found": True, "program": progs[prog], "witness_overrides": {str(i): hx(v) for i, v in over.items()}, "template": tag}, key="accepted:" + tag[:40])
